@@ -179,6 +179,9 @@ def run_check(prop, level, case_fn, specs, tier, seed, rule, assumptions=(),
         for v in post(agg, sigs) or []:
             viols.append(('post', v))
 
+    # replays of earlier runs of this check are stale now
+    if not only:
+        shutil.rmtree(os.path.join(REPLAY_ROOT, prop), ignore_errors=True)
     # known-findings matching, de-duplicated by key
     exit_code = 0
     reported = {}
